@@ -9,6 +9,7 @@ parent block).
 import hashlib
 import os
 import struct
+import time
 
 import vlib
 
@@ -16,6 +17,8 @@ LEVEL = "exploration"
 HERE = os.path.dirname(os.path.abspath(__file__))
 SRC = os.path.join(HERE, "harness.cpp")
 GENROOT = os.path.join(vlib.BUILD, "C16")
+
+BUDGET_S = 1200   # secondary builds of the thorough tier are only started during the first 20 minutes
 
 MODES = {"checked": "TCB_SPAN_THROW_ON_CONTRACT_VIOLATION", "nocheck": "TCB_SPAN_NO_CONTRACT_CHECKING"}
 
@@ -32,7 +35,8 @@ def bounds(tier):
             "selems": [0, 1, 4],                         # element types of the template-argument matrix
             "sparents": [-1, 0, 1, 2, 3, 4],             # parents of the template-argument matrix (-1 = dynamic, sizes 0..nmax)
             "sargs": list(range(-1, 6)),                 # O, C in -1..5
-            "builds": [("g++", "c++14", "-O1")],
+            "nmelems": [0, 1],                           # element types of the non-member template forms
+            "builds": [("g++", "c++14", "-O0")],
         }
     return {
         "nmax": 16,
@@ -41,7 +45,10 @@ def bounds(tier):
         "selems": [0, 1, 2, 3, 4, 5],
         "sparents": [-1, 0, 1, 2, 3, 4, 5, 6],
         "sargs": list(range(-1, 9)),
-        "builds": [("g++", "c++14", "-O1"), ("g++", "c++17", "-O1"), ("g++", "c++20", "-O2"), ("clang++", "c++14", "-O1"), ("clang++", "c++20", "-O2")],
+        "nmelems": [0, 1, 2, 3, 4, 5],
+        # the first build is the primary one (always run); the others re-execute the same space with another
+        # front end / standard library mode / optimiser and are dropped (with a cap) when time runs out
+        "builds": [("g++", "c++14", "-O0"), ("clang++", "c++14", "-O0"), ("g++", "c++20", "-O2"), ("clang++", "c++20", "-O1")],
     }
 
 
@@ -105,6 +112,11 @@ def probe_ill_formed(b, cc):
     has become well-formed is explored like the others (DESIGN.md section 2)."""
     cases = [x for x in static_cases(b, cc) if not x[4]]
     os.makedirs(GENROOT, exist_ok=True)
+    # verdicts are cached under the hash of the preprocessed header (vlib caches only successful compiles)
+    r = vlib.sh([cc, "-std=c++14", "-I" + vlib.INCLUDE, "-D" + MODES["checked"], "-E", "-P", os.path.join(vlib.INCLUDE, "xtl", "xspan.hpp")])
+    if r.returncode != 0:
+        raise vlib.HarnessError("cannot preprocess xtl/xspan.hpp with %s:\n%s" % (cc, r.stderr[-2000:]))
+    hdr = hashlib.sha256((cc + "\0" + r.stdout).encode()).hexdigest()[:16]
 
     def one(x):
         op, pe, o, c, _ = x
@@ -116,8 +128,14 @@ def probe_ill_formed(b, cc):
             tmp = path + ".tmp%d" % os.getpid()
             open(tmp, "w").write(txt)
             os.replace(tmp, path)
+        verdict = os.path.join(GENROOT, "verdict-%s-%s" % (hdr, os.path.basename(path)[6:-4]))
+        if os.path.exists(verdict):
+            return open(verdict).read().strip() == "well-formed"
         ok = vlib.compile_cxx(path, "c16probe", std="c++14", san="none", opt="-O0", syntax_only=True, expect_fail=True,
                               compiler=cc, defines=[MODES["checked"]])
+        tmp = verdict + ".tmp%d" % os.getpid()
+        open(tmp, "w").write("well-formed\n" if ok is not None else "ill-formed\n")
+        os.replace(tmp, verdict)
         return ok is not None
     res = vlib.parallel([(lambda x=x: one(x)) for x in cases], workers=min(8, vlib.NCPU))
     return [x for x, ok in zip(cases, res) if ok], len(cases)
@@ -140,7 +158,7 @@ def generate(b, newly_well_formed, cc):
                     lines.append(line("S", op, el, pe, o, c))
                     n_static += 1
                     # non-member forms: on a vector (dynamic) and on std::array<V,3>
-                    if pe in (-1, 3):
+                    if pe in (-1, 3) and part in b["nmelems"]:
                         lines.append(line("N", op, el, pe, o, c))
                         n_nm += 1
             for e in EXTREME:
@@ -158,6 +176,27 @@ def generate(b, newly_well_formed, cc):
     return d, {"parent_types_runtime_args": n_dyn, "static_member_instantiations": n_static, "static_nonmember_instantiations": n_nm}
 
 
+def pick_samples(samples):
+    """12 actual requests of the primary build, chosen deterministically: one per (validity class, operation) in a fixed order of preference"""
+    want = ["offset+count_overflows/subspan(o,c)", "proper/subspan(o,c)", "count>size-offset/subspan(o,c)", "proper/subspan<O,C>", "offset>size/subspan<O>", "count>size/first<C>",
+            "proper/last(c)", "count!=extent/ctor(ptr,count)", "proper/ctor(const vector&)", "offset+count_overflows/subspan(t,o,c)", "proper/subspan<O,C>(t)", "whole/empty/subspan(o)"]
+    pool = []
+    for key in sorted(samples, key=lambda k: (k[0] != "checked", k[1])):
+        pool += samples[key]
+    out = []
+    for w in want:
+        for s in pool:
+            if s.endswith("{%s}" % w) and s not in out:
+                out.append(s)
+                break
+    for s in pool:
+        if len(out) >= 12:
+            break
+        if s not in out:
+            out.append(s)
+    return out[:12]
+
+
 def tag_of(mode, part, build):
     return "c16-%s-p%d-%s-%s%s" % (mode, part, build[0].replace("+", "x"), build[1].replace("+", "x"), build[2])
 
@@ -168,14 +207,19 @@ def build_one(gendir, mode, part, build):
                             flags=["-I" + gendir], defines=[MODES[mode], "C16_PART=%d" % part, "_GLIBCXX_ASSERTIONS"])
 
 
+_PREP = {}
+
+
 def prepare(tier, compilers=None):
     """probe + generate once per compiler family: {cc: (gendir, counts, newly_well_formed, n_probes)}"""
     b = bounds(tier)
     prep = {}
     for cc in sorted(set(x[0] for x in b["builds"]) if compilers is None else compilers):
-        newly, n_probes = probe_ill_formed(b, cc)
-        gendir, counts = generate(b, newly, cc)
-        prep[cc] = (gendir, counts, newly, n_probes)
+        if (tier, cc) not in _PREP:
+            newly, n_probes = probe_ill_formed(b, cc)
+            gendir, counts = generate(b, newly, cc)
+            _PREP[(tier, cc)] = (gendir, counts, newly, n_probes)
+        prep[cc] = _PREP[(tier, cc)]
     return b, prep
 
 
@@ -192,24 +236,29 @@ def run(ctx):
             for part in parts:
                 jobs.append((bi, build, mode, part))
     skipped = []
+    samples = {}
 
     def one(job):
         bi, build, mode, part = job
         # the primary build always runs; further compilers/standards only while there is time
-        if bi > 0 and ctx.time_left() < 240:
+        if bi > 0 and (ctx.time_left() < 300 or time.time() - ctx.t0 > BUDGET_S):
             skipped.append(tag_of(mode, part, build))
             return None
         binary = build_one(prep[build[0]][0], mode, part, build)
         tag = tag_of(mode, part, build)
         kf = os.path.join(keydir, tag + ".keys")
-        ctx.run_harness(binary, ["--nmax", str(b["nmax"]), "--keys-out", kf], tag=tag, build=list(build))
+        recs = ctx.run_harness(binary, ["--nmax", str(b["nmax"]), "--keys-out", kf], tag=tag, build=list(build))
+        if bi == 0:
+            samples[(mode, part)] = [r["v"] for r in recs if r.get("t") == "sample"]
         return kf
 
     workers = int(os.environ.get("VERIF_JOBS", "0") or 0) or min(vlib.NCPU, 10)
     files = vlib.parallel([(lambda j=j: one(j)) for j in jobs], workers=workers)
+    ctx.samples = pick_samples(samples)
+    ctx.viols.sort(key=lambda v: (v["sig"], v["harness"] or ""))   # the reported instance of a signature does not depend on scheduling
     nt, req = set(), set()
     for f in files:
-        if f is None:
+        if f is None or not os.path.exists(f):   # build skipped, or the run was ended by a crash that is reported as a violation
             continue
         data = open(f, "rb").read()
         for i in range(0, len(data), 9):
